@@ -333,6 +333,12 @@ func (db *DB) Merge() error {
 					skipEntry = true
 				}
 
+				// records of transactions that never committed must not be rewritten
+				// (the rewrite would stamp them with a new, committed transaction id)
+				if _, ok := db.committedTxIds[entry.Meta.txID]; !ok {
+					skipEntry = true
+				}
+
 				// check if we have a new entry with same key and bucket
 				if r, _ := db.getRecordFromKey(entry.Meta.bucket, entry.Key); r != nil && !skipEntry {
 					if r.H.fileID > int64(pendingMergeFId) {
